@@ -648,10 +648,23 @@ mod pki {
         b.build()
     }
 
-    pub struct AccPki {
-        pub ca: Ca,
-        pub rustls_server: Arc<ServerConfig>,
-        pub openssl_server: SslAcceptor,
+    /// connector-side configs (any protocol version), trusting only `ca`
+    pub fn rustls_client_any(ca: &Ca) -> Arc<ClientConfig> {
+        let mut roots = RootCertStore::empty();
+        roots.add(CertificateDer::from(ca.cert.der().to_vec())).unwrap();
+        let mut cfg = ClientConfig::builder_with_provider(provider())
+            .with_safe_default_protocol_versions()
+            .unwrap()
+            .with_root_certificates(roots)
+            .with_no_client_auth();
+        cfg.resumption = rustls::client::Resumption::disabled();
+        Arc::new(cfg)
+    }
+    pub fn openssl_client_any(ca: &Ca) -> SslConnector {
+        let mut b = SslConnector::builder(SslMethod::tls()).unwrap();
+        b.cert_store_mut().add_cert(X509::from_der(ca.cert.der()).unwrap()).unwrap();
+        b.set_verify(SslVerifyMode::PEER);
+        b.build()
     }
     // rcgen's key type is not Sync-friendly everywhere; keep only what the acceptor cases need
     pub struct Shared {
@@ -1367,6 +1380,235 @@ mod acc {
     }
 }
 
+
+// ------------------------------------------------------------------------------------------------
+// C19 (TLS part): the connector services against in-process TLS servers over tokio::io::duplex
+// ------------------------------------------------------------------------------------------------
+mod tconn {
+    use std::{
+        cell::RefCell,
+        collections::HashMap,
+        pin::Pin,
+        rc::Rc,
+        sync::Arc,
+        task::{Context, Poll},
+        time::Duration,
+    };
+
+    use actix_service::Service;
+    use actix_tls::connect::{openssl as c_ossl, rustls_0_23 as c_rustls, Connection};
+    use tokio::io::{AsyncRead, AsyncReadExt, AsyncWrite, AsyncWriteExt, ReadBuf};
+
+    use super::{acc::Dx, conn::HostReq, pki};
+    use vh::Rng;
+
+    /// server-side transport that records whether the client ever sent a byte
+    struct Counted {
+        io: tokio::io::DuplexStream,
+        seen: Rc<RefCell<usize>>,
+    }
+    impl AsyncRead for Counted {
+        fn poll_read(mut self: Pin<&mut Self>, cx: &mut Context<'_>, buf: &mut ReadBuf<'_>) -> Poll<std::io::Result<()>> {
+            let before = buf.filled().len();
+            let r = Pin::new(&mut self.io).poll_read(cx, buf);
+            *self.seen.borrow_mut() += buf.filled().len() - before;
+            r
+        }
+    }
+    impl AsyncWrite for Counted {
+        fn poll_write(mut self: Pin<&mut Self>, cx: &mut Context<'_>, buf: &[u8]) -> Poll<std::io::Result<usize>> {
+            Pin::new(&mut self.io).poll_write(cx, buf)
+        }
+        fn poll_flush(mut self: Pin<&mut Self>, cx: &mut Context<'_>) -> Poll<std::io::Result<()>> {
+            Pin::new(&mut self.io).poll_flush(cx)
+        }
+        fn poll_shutdown(mut self: Pin<&mut Self>, cx: &mut Context<'_>) -> Poll<std::io::Result<()>> {
+            Pin::new(&mut self.io).poll_shutdown(cx)
+        }
+    }
+
+    pub struct Pki {
+        good: pki::Ca,
+        bad: pki::Ca,
+        leaves: HashMap<(String, bool), Arc<pki::Leaf>>,
+        rustls_client: Arc<tokio_rustls::rustls::ClientConfig>,
+        openssl_client: openssl::ssl::SslConnector,
+    }
+    impl Pki {
+        pub fn new() -> Pki {
+            let good = pki::new_ca("verif trusted ca");
+            let bad = pki::new_ca("verif untrusted ca");
+            let rustls_client = pki::rustls_client_any(&good);
+            let openssl_client = pki::openssl_client_any(&good);
+            Pki { good, bad, leaves: HashMap::new(), rustls_client, openssl_client }
+        }
+        fn leaf(&mut self, names: &str, trusted: bool) -> Option<Arc<pki::Leaf>> {
+            if let Some(l) = self.leaves.get(&(names.to_string(), trusted)) {
+                return Some(l.clone());
+            }
+            let sans: Vec<String> = names.split(';').filter(|x| !x.is_empty()).map(|x| x.to_string()).collect();
+            let l = super::catch(|| pki::new_leaf(if trusted { &self.good } else { &self.bad }, &sans)).ok()?;
+            let l = Arc::new(l);
+            self.leaves.insert((names.to_string(), trusted), l.clone());
+            Some(l)
+        }
+    }
+
+    pub struct TOp {
+        pub lib: String,
+        pub srv: String,
+        pub names: String,
+        pub trusted: bool,
+        pub host: HostReq,
+        pub payload: usize,
+    }
+
+    /// does a certificate with these SANs cover `host`?  (reference for the oracle; the generator keeps
+    /// to names for which this textbook rule is not in dispute: exact, single-label wildcard, IP SAN)
+    pub fn covers(names: &str, host: &str) -> bool {
+        let host_l = host.to_ascii_lowercase();
+        let is_ip = host.parse::<std::net::IpAddr>().is_ok();
+        names.split(';').filter(|x| !x.is_empty()).any(|n| {
+            let n = n.to_ascii_lowercase();
+            if is_ip || n.parse::<std::net::IpAddr>().is_ok() {
+                return is_ip && n.parse::<std::net::IpAddr>().ok() == host.parse::<std::net::IpAddr>().ok();
+            }
+            if let Some(rest) = n.strip_prefix("*.") {
+                match host_l.split_once('.') {
+                    Some((label, tail)) => !label.is_empty() && tail == rest,
+                    None => false,
+                }
+            } else {
+                n == host_l
+            }
+        })
+    }
+
+    pub enum TRes {
+        Ok { sni: Option<String>, echo: String },
+        InvalidInput { io: usize },
+        Handshake { io: usize },
+        Panic,
+        Watchdog,
+    }
+
+    async fn echo<A: AsyncRead + AsyncWrite + Unpin, B: AsyncRead + AsyncWrite + Unpin>(c: &mut A, s: &mut B, n: usize, seed: u64) -> String {
+        let mut r = Rng::new(seed);
+        let up: Vec<u8> = (0..n).map(|_| r.next() as u8).collect();
+        let down: Vec<u8> = (0..n).map(|_| r.next() as u8).collect();
+        let client = async {
+            let (mut rd, mut wr) = tokio::io::split(c);
+            let wf = async {
+                wr.write_all(&up).await?;
+                wr.flush().await
+            };
+            let mut got = vec![0u8; n];
+            let rf = rd.read_exact(&mut got);
+            let (a, b) = tokio::join!(wf, rf);
+            a.and(b.map(|_| ())).map(|_| got)
+        };
+        let server = async {
+            let (mut rd, mut wr) = tokio::io::split(s);
+            let wf = async {
+                wr.write_all(&down).await?;
+                wr.flush().await
+            };
+            let mut got = vec![0u8; n];
+            let rf = rd.read_exact(&mut got);
+            let (a, b) = tokio::join!(wf, rf);
+            a.and(b.map(|_| ())).map(|_| got)
+        };
+        match tokio::join!(client, server) {
+            (Ok(cg), Ok(sg)) => {
+                if cg == down && sg == up {
+                    "ok".into()
+                } else {
+                    "mismatch".into()
+                }
+            }
+            _ => "io-error".into(),
+        }
+    }
+
+    pub fn run(rt: &tokio::runtime::Runtime, pk: &mut Pki, op: &TOp) -> Option<TRes> {
+        let leaf = pk.leaf(&op.names, op.trusted)?;
+        let (cend, send) = tokio::io::duplex(1 << 20);
+        let seen = Rc::new(RefCell::new(0usize));
+        let sio = Counted { io: send, seen: seen.clone() };
+        let conn = Connection::new(op.host.clone(), Dx(cend));
+        let n = op.payload;
+        let r = super::catch(|| {
+            rt.block_on(async {
+                let work = async {
+                    match (op.lib.as_str(), op.srv.as_str()) {
+                        (lib, srv) => {
+                            // server side
+                            let rcfg = Arc::new(pki::rustls_server(&leaf));
+                            let oacc = pki::openssl_server(&leaf);
+                            let sfut = async {
+                                match srv {
+                                    "r" => match tokio_rustls::TlsAcceptor::from(rcfg).accept(sio).await {
+                                        Ok(s) => {
+                                            let sni = s.get_ref().1.server_name().map(|x| x.to_string());
+                                            Ok((sni, Box::new(s) as super::acc::BoxIo))
+                                        }
+                                        Err(e) => Err(e.to_string()),
+                                    },
+                                    _ => {
+                                        let ssl = openssl::ssl::Ssl::new(oacc.context()).unwrap();
+                                        let mut st = tokio_openssl::SslStream::new(ssl, sio).unwrap();
+                                        match Pin::new(&mut st).accept().await {
+                                            Ok(()) => {
+                                                let sni = st.ssl().servername(openssl::ssl::NameType::HOST_NAME).map(|x| x.to_string());
+                                                Ok((sni, Box::new(st) as super::acc::BoxIo))
+                                            }
+                                            Err(e) => Err(e.to_string()),
+                                        }
+                                    }
+                                }
+                            };
+                            // client side: the connector service under test
+                            let cfut = async {
+                                let r: Result<super::acc::BoxIo, std::io::Error> = match lib {
+                                    "r" => {
+                                        let svc = c_rustls::TlsConnector::service(pk.rustls_client.clone());
+                                        svc.call(conn).await.map(|c| Box::new(c.into_parts().0) as super::acc::BoxIo)
+                                    }
+                                    _ => {
+                                        let svc = c_ossl::TlsConnector::service(pk.openssl_client.clone());
+                                        svc.call(conn).await.map(|c| Box::new(c.into_parts().0) as super::acc::BoxIo)
+                                    }
+                                };
+                                r
+                            };
+                            let (sr, cr) = tokio::join!(sfut, cfut);
+                            match (cr, sr) {
+                                (Ok(mut c), Ok((sni, mut s))) => {
+                                    let e = echo(&mut c, &mut s, n, n as u64 + 3).await;
+                                    TRes::Ok { sni, echo: e }
+                                }
+                                (Ok(_), Err(_)) => TRes::Ok { sni: None, echo: "server-failed".into() },
+                                (Err(e), _) => {
+                                    if e.kind() == std::io::ErrorKind::InvalidInput {
+                                        TRes::InvalidInput { io: *seen.borrow() }
+                                    } else {
+                                        TRes::Handshake { io: *seen.borrow() }
+                                    }
+                                }
+                            }
+                        }
+                    }
+                };
+                match tokio::time::timeout(Duration::from_secs(20), work).await {
+                    Ok(r) => r,
+                    Err(_) => TRes::Watchdog,
+                }
+            })
+        });
+        Some(r.unwrap_or(TRes::Panic))
+    }
+}
+
 // ------------------------------------------------------------------------------------------------
 // generator
 // ------------------------------------------------------------------------------------------------
@@ -1507,6 +1749,70 @@ fn gen_c19(a: &Args, w: &mut dyn Write) {
         // malformed
         if rng.chance(1, 10) {
             writeln!(w, "{}", rng.pick(&["conn", "conn full", "conn x err s=a", "conn full ok=e9 s=a", "conn full err q=a", "conn full err s=a with", "conn full err s=a port=70000", "frob"])).unwrap();
+        }
+    }
+    // (4) TLS connector services (rustls 0.23, OpenSSL) against in-process servers (rustls / OpenSSL) whose
+    //     certificate (rcgen, run time) does / does not cover the requested name, trusted / untrusted issuer
+    let l63 = "a".repeat(63);
+    let name_of_len = |n: usize| -> String {
+        // labels of at most 63 bytes, total length n (n >= 200)
+        if n <= 255 {
+            format!("{l63}.{l63}.{l63}.{}", "b".repeat(n - 192))
+        } else {
+            format!("{l63}.{l63}.{l63}.{}.{}", "b".repeat(31), "c".repeat(n - 224))
+        }
+    };
+    let mut thosts: Vec<String> = [
+        "s=a.test", "s=a.test:443", "s=b.a.test", "s=c.b.a.test", "s=A.TEST", "s=B.a.Test:8443", "s=127.0.0.1", "s=127.0.0.1:8443", "h=::1,-", "h=a.test,8443",
+        "h=b.a.test:1,-", "s=a%b.test", "s=-a.test", "s=a-.test", "s=a..test", "s=.a.test", "s=~", "s=:443", "s=a_b.test", "s=1.2.3", "s=1.2.3.4a", "s=xn--nxasmq6b.test",
+        "s=other.test", "s=test", "s=localhost", "s=a.test:bad", "s=127.0.0.2", "h=~,443",
+    ]
+    .iter()
+    .map(|x| x.to_string())
+    .collect();
+    thosts.push(format!("s={l63}.test"));
+    thosts.push(format!("s={l63}a.test"));
+    for n in [253usize, 254, 255, 256, 300] {
+        thosts.push(format!("s={}", name_of_len(n)));
+        thosts.push(format!("s={}:443", name_of_len(n)));
+    }
+    let certs = ["a.test", "*.a.test", "a.test;b.a.test;127.0.0.1", "127.0.0.1;::1", "other.test", "*.b.a.test", "b.a.test;*.a.test"];
+    let pay = [0usize, 1, 100, 5000, 65536, 16384, 333];
+    let mut k = 0usize;
+    for (hi, h) in thosts.iter().enumerate() {
+        writeln!(w, "case tls-{hi} kind=tlsconn").unwrap();
+        for c in certs {
+            for lib in ["r", "o"] {
+                // OpenSSL's X509_check_host reads a name with a leading dot as "any sub-domain of": that is the
+                // library's matching rule, outside the claim (see `partial`), so it is not driven through OpenSSL
+                if lib == "o" && h.starts_with("s=.") {
+                    continue;
+                }
+                k += 1;
+                let srvs: &[&str] = if thorough { &["r", "o"] } else if k % 2 == 0 { &["r"] } else { &["o"] };
+                for srv in srvs {
+                    writeln!(w, "tconn {lib} {srv} good n={c} {h} {}", pay[k % pay.len()]).unwrap();
+                }
+                if thorough || k % 3 == 0 {
+                    // same certificate names, but issued by a CA the client does not trust
+                    writeln!(w, "tconn {lib} {} bad n={c} {h} {}", if k % 2 == 0 { "o" } else { "r" }, pay[(k + 1) % pay.len()]).unwrap();
+                }
+            }
+        }
+    }
+    // random TLS connects
+    let tcases = if thorough { 600 } else { 60 };
+    for c in 0..tcases {
+        writeln!(w, "case tlsrnd-{c} kind=tlsconn").unwrap();
+        for _ in 0..rng.range(2, 8) {
+            let h = rng.pick(&thosts).clone();
+            let lib = if h.starts_with("s=.") { "r" } else { *rng.pick(&["r", "o"]) };
+            let nn = rng.range(1, 3);
+            let names: Vec<&str> = (0..nn).map(|_| *rng.pick(&["a.test", "*.a.test", "b.a.test", "127.0.0.1", "::1", "other.test", "*.b.a.test", "c.b.a.test", "127.0.0.2"])).collect();
+            writeln!(w, "tconn {lib} {} {} n={} {h} {}", rng.pick(&["r", "o"]), if rng.chance(1, 5) { "bad" } else { "good" }, names.join(";"), rng.below(70000).min(65536)).unwrap();
+        }
+        if rng.chance(1, 8) {
+            writeln!(w, "{}", rng.pick(&["tconn r r good n=a.test s=a.test", "tconn x r good n=a.test s=a.test 1", "tconn r r good a.test s=a.test 1", "tconn r r good n=a.test a.test 1", "tconn r r good n=a.test s=a.test 70000", "conn full err s=a", "poll 0"])).unwrap();
         }
     }
 }
@@ -1776,6 +2082,7 @@ fn gen(a: &Args) {
 enum Case {
     None,
     Conn(Ctx),
+    TlsConn,
 }
 
 struct GroupOut {
@@ -1806,7 +2113,7 @@ fn run_conn_group(rt: &tokio::runtime::Runtime, lines: &[String]) -> GroupOut {
     let mut notes = vec![];
     let mut real = vec![];
     let mut case = Case::None;
-    // a scratch report collects T3 messages of run_conn_op
+    let mut tpki: Option<tconn::Pki> = None;
     for line in lines {
         let ws: Vec<&str> = line.split_whitespace().collect();
         let r: String = match ws.as_slice() {
@@ -1839,6 +2146,86 @@ fn run_conn_group(rt: &tokio::runtime::Runtime, lines: &[String]) -> GroupOut {
                                 }
                             }
                             _ => "bad-op".into(),
+                        }
+                    }
+                    Some("tlsconn") if rest.len() == 1 => {
+                        case = Case::TlsConn;
+                        "ok".into()
+                    }
+                    _ => "bad-op".into(),
+                }
+            }
+            ["tconn", lib @ ("r" | "o"), srv @ ("r" | "o"), ca @ ("good" | "bad"), names, host, payload] if matches!(case, Case::TlsConn) => {
+                let cx0 = Ctx { eps: vec![] };
+                let host = if let Some(h) = host.strip_prefix("s=") {
+                    cx0.subst(h).map(HostReq::S)
+                } else if let Some(h) = host.strip_prefix("h=") {
+                    h.rsplit_once(',').and_then(|(h, p)| {
+                        let p = if p == "-" { Some(None) } else { p.parse::<u16>().ok().filter(|x| x.to_string() == p).map(Some) };
+                        Some(HostReq::H(cx0.subst(h)?, p?))
+                    })
+                } else {
+                    None
+                };
+                let names = names.strip_prefix("n=");
+                let payload = payload.parse::<usize>().ok().filter(|n| *n <= 65536 && n.to_string() == *payload);
+                match (host, names, payload) {
+                    (Some(host), Some(names), Some(payload)) => {
+                        let op = tconn::TOp { lib: lib.to_string(), srv: srv.to_string(), names: names.to_string(), trusted: *ca == "good", host, payload };
+                        let pk = tpki.get_or_insert_with(tconn::Pki::new);
+                        match tconn::run(rt, pk, &op) {
+                            None => "bad-op".into(),
+                            Some(r) => {
+                                let hostname = Host::hostname(&op.host).to_string();
+                                let is_ip = hostname.parse::<IpAddr>().is_ok();
+                                let covered = op.trusted && tconn::covers(&op.names, &hostname);
+                                // conservative: names every TLS stack accepts (lower-case LDH labels) or IP literals
+                                let plain = is_ip
+                                    || (!hostname.is_empty()
+                                        && hostname.len() <= 253
+                                        && hostname.split('.').all(|l| {
+                                            !l.is_empty() && l.len() <= 63 && !l.starts_with('-') && !l.ends_with('-') && l.chars().all(|c| c.is_ascii_lowercase() || c.is_ascii_digit() || c == '-')
+                                        })
+                                        && !hostname.split('.').last().unwrap().chars().all(|c| c.is_ascii_digit()));
+                                let out = match &r {
+                                    tconn::TRes::Ok { sni, echo } => format!("ok sni={} echo={echo}", sni.clone().unwrap_or_else(|| "-".into())),
+                                    tconn::TRes::InvalidInput { io } => format!("err invalid-input io={}", (*io > 0) as u8),
+                                    tconn::TRes::Handshake { .. } => "err handshake".into(),
+                                    tconn::TRes::Panic => "panic".into(),
+                                    tconn::TRes::Watchdog => "watchdog".into(),
+                                };
+                                let mut t3 = |m: String| rep_t3.push(("C19".to_string(), m));
+                                match &r {
+                                    tconn::TRes::Panic | tconn::TRes::Watchdog => t3(format!("TLS connector ({lib}) did not return a result for hostname {:?}: {out}", hostname)),
+                                    tconn::TRes::Ok { sni, echo } => {
+                                        // (a leading-dot name under OpenSSL is a sub-domain query by X509_check_host's own rule: not judged)
+                                        if !covered && !(*lib == "o" && hostname.starts_with('.')) {
+                                            t3(format!("TLS connector ({lib}) succeeded for hostname {:?} but the certificate (names {}, trusted issuer: {}) is not valid for it", hostname, op.names, op.trusted));
+                                        }
+                                        let want = if is_ip { None } else { Some(hostname.clone()) };
+                                        if plain && *sni != want {
+                                            t3(format!("server saw SNI {:?}, expected the request's hostname {:?}", sni, want));
+                                        }
+                                        if echo != "ok" {
+                                            t3(format!("payload of {} bytes did not arrive unchanged: {echo}", op.payload));
+                                        }
+                                    }
+                                    tconn::TRes::InvalidInput { io } => {
+                                        if *io > 0 {
+                                            t3("InvalidInput although bytes were sent to the server".to_string());
+                                        }
+                                        if plain {
+                                            t3(format!("hostname {:?} rejected as invalid", hostname));
+                                        }
+                                    }
+                                    tconn::TRes::Handshake { .. } => {
+                                        if covered && plain {
+                                            t3(format!("TLS connector ({lib}) failed although the certificate (names {}) covers hostname {:?}", op.names, hostname));
+                                        }
+                                    }
+                                }
+                                out
+                            }
                         }
                     }
                     _ => "bad-op".into(),
